@@ -173,7 +173,7 @@ theorem lookupCache_spec (cfg : Cfg) (H : Hashes) (s : State) (p : Prompt) :
         refine ⟨hcs.1, ?_⟩
         intro o ho
         right
-        obtain ⟨_, e, he, hk, hr, ht⟩ := hcs.2 r rfl
+        obtain ⟨_, e, he, hk, hr, ht, _⟩ := hcs.2 r rfl
         simp only [Option.some.injEq] at ho
         exact ⟨trivial, trivial, e, he, hk, ht, by rw [← ho, hr]⟩
 
@@ -412,11 +412,62 @@ theorem execR_obs (H : Hashes) (ops : List ROp) : ∀ (cfg : Cfg) (s : State),
       · exact step_gated cfg H s x
       · exact ih cfg _ o ho
 
-/-- along every history with re-assignments, every cache hit has its original strictly earlier -/
+/-- `o'` is the original of the cached reply `o` in a history with re-assignments: as `Original`, and the gate logic
+    in force at the original is the gate logic in force now (an entry decided under another logic is never served) -/
+def OriginalR (H : Hashes) (o' o : RObs) : Prop :=
+  Original H o'.toObs o.toObs ∧ o'.cfg.gate = o.cfg.gate
+
+/-- every cache entry was stored by a request in `tr`, under the gate logic the entry records -/
+def CacheFromR (H : Hashes) (tr : List RObs) (c : List Entry) : Prop :=
+  ∀ e ∈ c, ∃ o' ∈ tr, ∃ (p' : Prompt) (zr' yr' : Resp) (ev : BEvent),
+    o'.op = .run p' zr' yr' ∧ H.md5 p'.id = e.key ∧ o'.out = ⟨.gated ev, some e.res⟩ ∧ e.res.cached = false ∧
+    o'.cfg.gate = e.gate
+
+theorem step_cacheFromR (cfg : Cfg) (H : Hashes) (s : State) (op : Op) (pre : List RObs)
+    (h : CacheFromR H pre s.cache) :
+    CacheFromR H (pre ++ [⟨cfg, op, (step cfg H s op).2⟩]) (step cfg H s op).1.cache ∧
+    ((step cfg H s op).2.kind = .cacheHit → ∃ o' ∈ pre, OriginalR H o' ⟨cfg, op, (step cfg H s op).2⟩) := by
+  have weaken : ∀ c, CacheFromR H pre c → CacheFromR H (pre ++ [⟨cfg, op, (step cfg H s op).2⟩]) c := by
+    intro c hc e he
+    obtain ⟨o', ho', rest⟩ := hc e he
+    exact ⟨o', List.mem_append_left _ ho', rest⟩
+  cases op with
+  | run p zr yr =>
+    simp only [step]
+    constructor
+    · intro e he
+      have old : e ∈ s.cache → ∃ o' ∈ pre ++ [(⟨cfg, .run p zr yr, (run cfg H s p zr yr).2⟩ : RObs)],
+          ∃ (p' : Prompt) (zr' yr' : Resp) (ev : BEvent),
+            o'.op = .run p' zr' yr' ∧ H.md5 p'.id = e.key ∧ o'.out = ⟨.gated ev, some e.res⟩ ∧ e.res.cached = false ∧
+            o'.cfg.gate = e.gate := by
+        intro h'
+        obtain ⟨o', ho', rest⟩ := h e h'
+        exact ⟨o', List.mem_append_left _ ho', rest⟩
+      rcases run_cache_gate cfg H s p zr yr e he with h' | hg
+      · exact old h'
+      · rcases run_cache cfg H s p zr yr e he with h' | ⟨z, y, _, _, _, hk, hr, hout⟩
+        · exact old h'
+        · refine ⟨⟨cfg, .run p zr yr, (run cfg H s p zr yr).2⟩, by simp, p, zr, yr,
+            classifyRun (gateResult H cfg.gate p z y).success (gateResult H cfg.gate p z y).blocked z y,
+            rfl, hk.symm, ?_, ?_, hg.symm⟩
+          · rw [hout, hr]
+          · rw [hr]; rfl
+    · intro hk
+      obtain ⟨e, he, hkey, hg, hout⟩ := run_hit_gate cfg H s p zr yr hk
+      obtain ⟨o', ho', p', zr', yr', ev, hop, hmd, hout', hc, hgate⟩ := h e he
+      refine ⟨o', ho', ⟨p, p', zr, yr, zr', yr', e.res, ev, rfl, hop, by rw [hmd, hkey], hout', hc, ?_⟩, ?_⟩
+      · simp only [RObs.toObs]; rw [hout]
+      · rw [hgate, hg]
+  | adv d => exact ⟨by simpa [step] using weaken _ h, by simp [step]⟩
+  | resetcb => exact ⟨by simpa [step] using weaken _ h, by simp [step]⟩
+  | clearcache => exact ⟨by intro e he; simp [step] at he, by simp [step]⟩
+
+/-- along every history with re-assignments, every cache hit has its original strictly earlier, decided under the
+    gate logic in force at the hit -/
 theorem execR_originals (H : Hashes) (ops : List ROp) : ∀ (cfg : Cfg) (s : State) (pre : List RObs),
-    CacheFrom H (pre.map RObs.toObs) s.cache →
+    CacheFromR H pre s.cache →
     ∀ (tr1 tr2 : List RObs) (o : RObs), (execR H cfg s ops).2 = tr1 ++ o :: tr2 → o.out.kind = .cacheHit →
-      ∃ o' ∈ pre ++ tr1, Original H o'.toObs o.toObs := by
+      ∃ o' ∈ pre ++ tr1, OriginalR H o' o := by
   induction ops with
   | nil => intro cfg s pre _ tr1 tr2 o h; simp [execR] at h
   | cons a rest ih =>
@@ -425,21 +476,18 @@ theorem execR_originals (H : Hashes) (ops : List ROp) : ∀ (cfg : Cfg) (s : Sta
     | assign c => exact ih c s pre hpre tr1 tr2 o (by simpa [execR] using hsplit) hk
     | op x =>
       simp only [execR] at hsplit
-      have hs := step_cacheFrom cfg H s x (pre.map RObs.toObs) hpre
+      have hs := step_cacheFromR cfg H s x pre hpre
       cases tr1 with
       | nil =>
         simp only [List.nil_append, List.cons.injEq] at hsplit
         obtain ⟨ho, _⟩ := hsplit
         subst ho
         obtain ⟨o', ho', horig⟩ := hs.2 hk
-        obtain ⟨o'', ho'', rfl⟩ := List.mem_map.mp ho'
-        exact ⟨o'', by simpa using ho'', horig⟩
+        exact ⟨o', by simpa using ho', horig⟩
       | cons b tr1' =>
         simp only [List.cons_append, List.cons.injEq] at hsplit
         obtain ⟨hb, hrest⟩ := hsplit
-        have hpre' : CacheFrom H ((pre ++ [(⟨cfg, x, (step cfg H s x).2⟩ : RObs)]).map RObs.toObs) (step cfg H s x).1.cache := by
-          simpa [List.map_append, RObs.toObs] using hs.1
-        obtain ⟨o', ho', horig⟩ := ih cfg (step cfg H s x).1 (pre ++ [(⟨cfg, x, (step cfg H s x).2⟩ : RObs)]) hpre' tr1' tr2 o hrest hk
+        obtain ⟨o', ho', horig⟩ := ih cfg (step cfg H s x).1 (pre ++ [(⟨cfg, x, (step cfg H s x).2⟩ : RObs)]) hs.1 tr1' tr2 o hrest hk
         refine ⟨o', ?_, horig⟩
         subst hb
         simpa [List.append_assoc] using ho'
